@@ -77,6 +77,36 @@ fn main() {
                 std::process::exit(2);
             }
         }
+        "bench" => {
+            inst::set_config("regtest", true);
+            let (scs, _) = hist_scenarios("C01", "quick").unwrap();
+            let sc = &scs[0];
+            let mut r = explore::Runner::new(sc.opts.clone(), &sc.starts[0].0, sc.starts[0].1.clone(), sc.alphabet.clone());
+            let path = vec![0usize, 1, 2, 5];
+            let n = 200;
+            let t = util::now();
+            for _ in 0..n { r.subject.wipe(); }
+            println!("wipe: {:.3} ms", t.elapsed().as_secs_f64() * 1e3 / n as f64);
+            let t = util::now();
+            let mut w = None;
+            for _ in 0..n { w = Some(r.run_path(&path).world); }
+            println!("run_path: {:.3} ms", t.elapsed().as_secs_f64() * 1e3 / n as f64);
+            let w = w.unwrap();
+            let t = util::now();
+            for _ in 0..n { let _ = r.subject.dump(); }
+            println!("dump: {:.3} ms", t.elapsed().as_secs_f64() * 1e3 / n as f64);
+            let t = util::now();
+            for _ in 0..n { let _ = obs::fp(&obs::masked(r.subject.dump())); }
+            println!("dump+mask+fp: {:.3} ms", t.elapsed().as_secs_f64() * 1e3 / n as f64);
+            let t = util::now();
+            let mut len = 0;
+            for _ in 0..n { len = obs::obs(&mut r.subject, &w.uni, &obs::ObsCfg::default()).len(); }
+            println!("obs: {:.3} ms ({} bytes, {} lines, uni h32={} addrs={} inscs={})", t.elapsed().as_secs_f64() * 1e3 / n as f64, len, obs::obs(&mut r.subject, &w.uni, &obs::ObsCfg::default()).lines().count(), w.uni.h32.len(), w.uni.addrs.len(), w.uni.inscs.len());
+            let t = util::now();
+            for _ in 0..n { let _ = r.check_path(&path, true); }
+            println!("check_path: {:.3} ms", t.elapsed().as_secs_f64() * 1e3 / n as f64);
+            inst::cleanup_scratch();
+        }
         "replay" => {
             let text = std::fs::read_to_string(&args[2]).expect("replay file");
             let v: explore::Violation = serde_json::from_str(&text).expect("replay json");
